@@ -75,8 +75,8 @@ def main(tier):
         #      in the same process — errors of a host stream parser's operand (CustomDiceStream.ReadExpr), ordinary syntax errors, rolls
         from lib.common import go_child, hx as _hx
         probes = [("E0,L30000", "spexpr", "R(2*"), ("E1,L30000", "spexpr", "R(2*"), ("E2,L30000", "spexpr", "R1 +* 2"), ("E0,L30000", "spexpr", "R`{1+}`"),
-                  ("E0,L30000", "-", "(1 +"), ("E1,L30000", "-", "[1,"), ("E2,L30000", "sphash", "#5 +"), ("E0,L30000", "spexpr", "R2d6 + (")]
-        befores = [("E2,L30000", "spexpr", "R1+2"), ("E1,L30000", "spexpr", "R(3*"), ("E2,L30000", "-", "1 +"), ("E1,L30000", "sphash", "#7"), ("E2,L30000", "spexpr", "R(")]
+                  ("E0,L30000", "-", "(1 +"), ("E1,L30000", "-", "[1,"), ("L30000", "-", "&cb = (hp9 ?? 10) + 1; cb"), ("L30000", "-", "&cc = (mp9 ?? 3) * 2; cc"), ("E2,L30000", "sphash", "#5 +"), ("E0,L30000", "spexpr", "R2d6 + (")]
+        befores = [("L30000", "-", "&ca = (hp9 = 50) + 1; &cz = (mp9 = 9); ca + cz"), ("E2,L30000", "spexpr", "R1+2"), ("E1,L30000", "spexpr", "R(3*"), ("E2,L30000", "-", "1 +"), ("E1,L30000", "sphash", "#7"), ("E2,L30000", "spexpr", "R(")]
         for pc, ps, psrc in probes:
             alone = go_child(line_timeout=20).run([f"custom {pc} {1:032x} {ps} {_hx(psrc)}"])[0]
             for bc, bs, bsrc in befores:
